@@ -65,9 +65,9 @@ SIZE_API = [SZF + 'filter_pair', SZF + 'filter_tables']
 FLT = 'py_stringsimjoin.filter.filter.'
 CANDSET = [GH + 'build_dict_from_table', FLT + '_filter_candset_split', FLT + 'Filter.filter_candset']
 MAT = 'py_stringsimjoin.matcher.apply_matcher.'
-MATCHER = [MAT + '_apply_matcher_split', MAT + 'apply_matcher']
-GENTOK = ('generate_tokens (ASSUMED, contracts/matcher.py): the token cache maps every key whose value is present to '
-          'tokenize(value) (pandas Series.apply / zip / dict)')
+MATCHER = [MAT + '_apply_matcher_split', MAT + 'generate_tokens', MAT + 'apply_matcher']
+GENTOK = ('pandas / builtins used by generate_tokens (ASSUMED, pyvc/pandas_model.py): Series.apply(tokenizer.tokenize) is elementwise, '
+          'zip pairs up to the shorter length, dict(zip) lets the last pair of a repeated key win')
 ANYF = ('filter_candset is verified once against an abstract filter_pair (ASSUMED only to be a deterministic function of the '
         'filter object and the two values, which each concrete filter_pair contract under verification refines)')
 SIMF = 'the sim_function passed to apply_matcher is an arbitrary deterministic function of its two arguments (uninterpreted)'
